@@ -543,7 +543,13 @@ pub fn field_inputs_decode(ctx: &Ctx, rng: &mut rand_chacha::ChaCha20Rng, nrand:
     for _ in 0..nrand {
         let k = crate::zoo::rand_below(rng, &c.r);
         let p = c.mul(&k, &ctx.g);
-        v.push((c.encode_spec_fe(&p).unwrap(), "valid"));
+        let e = c.encode_spec_fe(&p).unwrap();
+        // the negative partner of a full-size valid encoding: q - s0 is odd, and for most s0 the integer
+        // (q - s0) + q still fits the bit length of the field (a second, even, representative of the same residue)
+        if e != b(0) {
+            v.push((q - &e, "negation of a valid encoding"));
+        }
+        v.push((e, "valid"));
         let r = crate::zoo::rand_below(rng, q);
         v.push((r, "random"));
     }
